@@ -198,6 +198,11 @@ AllTDs(T) == (IF T.k = "td" THEN {T} ELSE {})
 
 TDKeys(td) == {f.n : f \in td.u}
 
+\* the value holds, somewhere, a non-empty dict all of whose keys are strings (the only thing a TypedDict may come from)
+RECURSIVE HoldsRecord(_)
+HoldsRecord(v) == \/ (v.k = "dict" /\ Len(v.a) > 0 /\ \A j \in 1..Len(v.a) : v.a[j].a[1].k = "str")
+                  \/ \E j \in 1..Len(v.a) : HoldsRecord(v.a[j])
+
 \* C06 bound on one type
 TDBoundOK(T, k) == \A d \in AllTDs(T) : Cardinality(TDKeys(d)) >= 1 /\ Cardinality(TDKeys(d)) <= k
 
